@@ -69,6 +69,10 @@ func (l *layout) owned(p string) bool {
 	return false
 }
 
+// the HMAC key of pubGroup's authKeys (base64url of "0123456789abcdef0123456789abcdef")
+const jwtSecret = "0123456789abcdef0123456789abcdef"
+const jwtSecretB64 = "MDEyMzQ1Njc4OWFiY2RlZjAxMjM0NTY3ODlhYmNkZWY"
+
 const (
 	recGroup  = "grec"
 	pubGroup  = "gpub"
@@ -87,7 +91,8 @@ func fixtureGroups() map[string]map[string]any {
 		return map[string]any{opUser: map[string]any{"password": opPass, "permissions": "op"}}
 	}
 	return map[string]map[string]any{
-		pubGroup:  {"displayName": "FIXTURE-pub", "wildcard-user": wild("present"), "users": users(), "unrestricted-tokens": true},
+		pubGroup: {"displayName": "FIXTURE-pub", "wildcard-user": wild("present"), "users": users(), "unrestricted-tokens": true,
+			"authKeys": []any{map[string]any{"kty": "oct", "alg": "HS256", "k": jwtSecretB64}}},
 		recGroup:  {"displayName": "FIXTURE-rec", "wildcard-user": wild("present"), "users": users(), "allow-recording": true, "auto-subgroups": true},
 		apiGroup:  {"displayName": "FIXTURE-api", "wildcard-user": wild("present"), "users": users()},
 		autoGroup: {"displayName": "FIXTURE-auto", "wildcard-user": wild("present"), "users": users(), "auto-subgroups": true, "allow-recording": true},
